@@ -467,6 +467,70 @@ def showCEx : CEx → String
   | .nullif0 e => "(nullif0 " ++ showCEx e ++ ")"
   | .div a b => "(div " ++ showCEx a ++ " " ++ showCEx b ++ ")"
 
+-- ------------------------------------------------------------------------------------------ set-operation chains
+inductive SetKind where
+  | union | except | intersect
+  deriving DecidableEq, Repr, Inhabited
+
+/-- a tree of set operations as the parser builds it; a parenthesised operand is a Subquery, i.e. a leaf here -/
+inductive SetTree where
+  | leaf (i : Nat)
+  | op (k : SetKind) (distinct : Bool) (l r : SetTree)
+  deriving DecidableEq, Repr, Inhabited
+
+inductive SetTok where
+  | branch (i : Nat)
+  | kw (k : SetKind) (distinct : Bool)
+  deriving DecidableEq, Repr, Inhabited
+
+inductive SetItem where
+  | tree (t : SetTree)
+  | kw (k : SetKind) (distinct : Bool)
+  deriving Repr, Inhabited
+
+/-- what the text must be: operands and operators in order -/
+def SetTree.inorder : SetTree → List SetTok
+  | .leaf i => [.branch i]
+  | .op k d l r => l.inorder ++ [.kw k d] ++ r.inorder
+
+/-- `Generator.set_operations`: the explicit-stack loop that flattens a chain; the keyword is computed PER NODE
+    (`self.set_operation(node)`) when the node is popped -/
+def setOpsLoop : Nat → List SetItem → List SetTok → List SetTok
+  | 0, _, out => out
+  | _ + 1, [], out => out
+  | f + 1, .kw k d :: st, out => setOpsLoop f st (out ++ [.kw k d])
+  | f + 1, .tree (.leaf i) :: st, out => setOpsLoop f st (out ++ [.branch i])
+  | f + 1, .tree (.op k d l r) :: st, out => setOpsLoop f (.tree l :: .kw k d :: .tree r :: st) out
+
+def SetTree.weight : SetTree → Nat
+  | .leaf _ => 1
+  | .op _ _ l r => l.weight + r.weight + 2
+
+def SetItem.weight : SetItem → Nat
+  | .tree t => t.weight
+  | .kw _ _ => 1
+
+def SetItem.flat : SetItem → List SetTok
+  | .tree t => t.inorder
+  | .kw k d => [.kw k d]
+
+def printSetOps (t : SetTree) : List SetTok := setOpsLoop t.weight [.tree t] []
+
+/-- UNREPAIRED VARIANT (seeded regression C02-6): the keyword is cached per operation CLASS — the first node of a
+    class that is popped (the LAST operator of the text) decides the keyword of all of them -/
+def lookupKind (cache : List (SetKind × Bool)) (k : SetKind) : Option Bool :=
+  (cache.find? (fun p => p.1 == k)).map (·.2)
+
+def setOpsLoopCached : Nat → List (SetKind × Bool) → List SetItem → List SetTok → List SetTok
+  | 0, _, _, out => out
+  | _ + 1, _, [], out => out
+  | f + 1, c, .kw k d :: st, out => setOpsLoopCached f c st (out ++ [.kw k d])
+  | f + 1, c, .tree (.leaf i) :: st, out => setOpsLoopCached f c st (out ++ [.branch i])
+  | f + 1, c, .tree (.op k d l r) :: st, out =>
+    match lookupKind c k with
+    | some d' => setOpsLoopCached f c (.tree l :: .kw k d' :: .tree r :: st) out
+    | none => setOpsLoopCached f ((k, d) :: c) (.tree l :: .kw k d :: .tree r :: st) out
+
 -- ------------------------------------------------------------------------------------------ alias generation
 /-- `f"{base}_{i}"` -/
 def candidateName (base : String) (i : Nat) : String := base ++ "_" ++ toString i
